@@ -40,6 +40,10 @@ def MemEqStore (s : St) : Prop :=
 def NamesOk (m : Mem) : Prop :=
   ∀ n, m.names n = true ↔ ∃ id p, m.pls id = some p ∧ p.name = n
 
+/-- pipeline names are unique. -/
+def NameUniq (m : Mem) : Prop :=
+  ∀ i j p q, m.pls i = some p → m.pls j = some q → p.name = q.name → i = j
+
 /-- pipelines reference exactly their existing connectors and processors and vice versa. -/
 structure Refs (m : Mem) : Prop where
   plConn  : ∀ pid p cid, m.pls pid = some p → cid ∈ p.conns → ∃ c, m.cns cid = some c ∧ c.pipeline = pid
@@ -157,11 +161,23 @@ structure WF (m : Mem) : Prop where
   cnTyp : ∀ id c, m.cns id = some c → c.typ = 1 ∨ c.typ = 2
   prPlg : ∀ id r, m.prs id = some r → r.plugin ≠ 0
 
+/-- Reference consistency of a control-plane state (what the harness monitor `refsB` evaluates on
+the in-memory view): every connector id in a pipeline's `ConnectorIDs` exists and names that
+pipeline as its `PipelineID` and vice versa; every processor id in a pipeline's / connector's
+`ProcessorIDs` exists with that parent and vice versa; no id is listed twice; no processor or
+connector has a dangling parent. -/
+def RefInv (s : St) : Prop := Refs s.mem
+
+/-- the state a restarted server holds: the in-memory maps are the decoded committed store. -/
+def storeImage (s : St) : St :=
+  { s with mem := { pls := s.kv.pls, cns := s.kv.cns, prs := s.kv.prs, names := s.mem.names } }
+
 /-- the invariant of histories on which no F7 trigger fired. -/
 structure Inv (s : St) : Prop where
   tx    : s.tx = none
   eq    : MemEqStore s
   names : NamesOk s.mem
+  uniq  : NameUniq s.mem
   refs  : Refs s.mem
   fresh : Fresh s
   wf    : WF s.mem
@@ -230,6 +246,11 @@ def memEqStoreB (s : St) : Bool :=
   dumpMaps n false s.mem.pls s.mem.cns s.mem.prs (memNames s) ==
     dumpMaps n false s.kv.pls s.kv.cns s.kv.prs (kvNames n s.kv)
 
+/-- no id occurs twice. -/
+def nodupB : List Id → Bool
+  | [] => true
+  | x :: xs => !xs.contains x && nodupB xs
+
 /-- executable `Refs` over the id universe `[0, next)`. -/
 def refsB (s : St) : Bool :=
   let m := s.mem
@@ -238,12 +259,12 @@ def refsB (s : St) : Bool :=
     (match m.pls i with
      | some p => p.conns.all (fun c => (m.cns c).any (·.pipeline = i)) &&
                  p.procs.all (fun r => (m.prs r).any (fun x => x.ptype = 2 && x.parent = i)) &&
-                 p.conns.eraseDups.length = p.conns.length && p.procs.eraseDups.length = p.procs.length
+                 nodupB p.conns && nodupB p.procs
      | none => true) &&
     (match m.cns i with
      | some c => (m.pls c.pipeline).any (·.conns.contains i) &&
                  c.procs.all (fun r => (m.prs r).any (fun x => x.ptype = 1 && x.parent = i)) &&
-                 c.procs.eraseDups.length = c.procs.length
+                 nodupB c.procs
      | none => true) &&
     (match m.prs i with
      | some r => (r.ptype = 2 && (m.pls r.parent).any (·.procs.contains i)) ||
